@@ -168,7 +168,7 @@ def oracle_zoo(ctx, inputs):
 
     def on_alarm(sig, frm):
         raise _Timeout()
-    old = signal.signal(signal.SIGALRM, on_alarm)
+    old = signal.signal(signal.SIGPROF, on_alarm)
     try:
         quiet = lambda *a: None
         for name, mk in [(n_, m_, ) for (n_, m_) in zoo()] + [(n_ + "+debug", m_) for (n_, m_) in zoo()]:
@@ -184,7 +184,7 @@ def oracle_zoo(ctx, inputs):
                 continue
             anchors = anchored_at_end(e)
             for inp in inputs:
-                signal.setitimer(signal.ITIMER_REAL, 2.0)
+                signal.setitimer(signal.ITIMER_PROF, 2.0)
                 try:
                     for entry, exc, parsed in run_entries(e, inp):
                         key = "%s|%s|%r" % (name, entry, inp)
@@ -200,10 +200,10 @@ def oracle_zoo(ctx, inputs):
                 except _Timeout:
                     ctx.stat("zoo_timeouts")
                 finally:
-                    signal.setitimer(signal.ITIMER_REAL, 0)
+                    signal.setitimer(signal.ITIMER_PROF, 0)
                     pp.ParserElement.disable_memoization()
     finally:
-        signal.signal(signal.SIGALRM, old)
+        signal.signal(signal.SIGPROF, old)
 
 
 def correspond(ctx):
